@@ -253,6 +253,14 @@ class Oracle:
                     a[0], "backup copies" if len(a) > 3 else "primary copies", a[1], a[2], sorted(set(got))[:12], sorted(must)[:12])
             self.hit("raw_scan_replica" if len(a) > 3 else "raw_scan_checked")
             return None
+        if name == "c.rawframe":
+            # a command and a PING behind it on one connection: whatever the command is answered (value or error), the next
+            # reply belongs to the PING - through a pipeline or a hand-written client every later result depends on it
+            self.hit("one_reply_per_command")
+            if " second=+PONG extra=0" not in reply:
+                return "one connection, %s followed by PING: %s - the command was answered twice or not at all" % (
+                    bytes.fromhex(a[1]).decode("latin1").upper(), reply[:120])
+            return None
         if name == "c.scanall":
             import re
             pat = None if len(a) < 4 or a[3] == "*" else re.compile(bytes.fromhex(a[3]).decode())
@@ -401,6 +409,14 @@ class Gen:
                     for d2 in dms:
                         for k2 in keys:
                             yield "wb %s %s" % (d2, hx(k2))
+            if r.random() < 0.04:
+                # write commands that the owner REFUSES (entry larger than a table, unknown key) or answers without
+                # changing anything, each with a PING behind it on the same connection
+                big = b"B" * (tsize + 64)
+                cands = ([[b"dm.getput", dm.encode(), b"zz-frame", big], [b"dm.put", dm.encode(), b"zz-frame", big]] * 2 if tsize <= 4096 else []) + [
+                         [b"dm.expire", dm.encode(), b"zz-nokey", b"10"], [b"dm.get", dm.encode(), b"zz-nokey"],
+                         [b"dm.getentry", dm.encode(), b"zz-nokey"], [b"dm.del", dm.encode(), b"zz-nokey"]]
+                yield "c.rawframe %d %s" % (r.randrange(n), " ".join(hx(t) for t in r.choice(cands)))
             w = r.random()
             if w < 0.35:
                 ver += 1
